@@ -294,12 +294,13 @@ func (p *Primary) StreamWAL(
 
 // sendUpdatedEntries sends any new WAL entries to the replica since its last acknowledged sequence
 func (p *Primary) sendUpdatedEntries(session *ReplicaSession) error {
-	// Take the mutex to safely read and update session state
+	// Read the session state under its mutex, but release it while reading the
+	// WAL: a writer inside wal.Append holds the WAL mutex and takes the session
+	// mutex from there to push, so waiting for the WAL mutex with the session
+	// mutex held deadlocks against it
 	session.mu.Lock()
-	defer session.mu.Unlock()
-
-	// Get the next sequence number we should send
 	nextSequence := session.LastAckSequence + 1
+	session.mu.Unlock()
 
 	log.Info("Sending updated entries to replica %s starting from sequence %d",
 		session.ID, nextSequence)
@@ -338,7 +339,10 @@ func (p *Primary) sendUpdatedEntries(session *ReplicaSession) error {
 		Codec:      proto.CompressionCodec_NONE,
 	}
 
-	// Send to the replica (we're already holding the lock)
+	// Send to the replica under the session mutex, like every other sender
+	session.mu.Lock()
+	defer session.mu.Unlock()
+
 	if err := session.Stream.Send(response); err != nil {
 		return fmt.Errorf("failed to send entries: %w", err)
 	}
@@ -622,8 +626,10 @@ func (p *Primary) resendEntries(session *ReplicaSession, fromSequence uint64) er
 // getWALEntriesFromSequence retrieves WAL entries starting from the specified sequence
 // in batches of up to maxEntriesToReturn entries at a time
 func (p *Primary) getWALEntriesFromSequence(fromSequence uint64) ([]*wal.Entry, error) {
-	p.mu.RLock()
-	defer p.mu.RUnlock()
+	// Do not hold p.mu while calling into the WAL: a writer inside wal.Append
+	// holds the WAL mutex and takes p.mu from there (OnWALSync, broadcast), so
+	// waiting for the WAL mutex with p.mu held deadlocks against it. p.wal is
+	// set once at construction and needs no lock.
 
 	// Get current sequence in WAL (next sequence - 1)
 	// We subtract 1 to get the current highest assigned sequence
